@@ -340,7 +340,8 @@ def mutants(text):
 
 def family(t, sd):
     specs = []
-    big = [1e-9, 1e9, -1e-9, 123456.789, 0.1, 1 / 3, -2.5e-7, 1e15, 7e-5]
+    # incl. coefficients a tolerant comparison would take for +-1 or 0 (the export drops a unit coefficient)
+    big = [1e-9, 1e9, -1e-9, 123456.789, 0.1, 1 / 3, -2.5e-7, 1e15, 7e-5, 1 + 2 ** -20, 1 - 2 ** -20, -1 - 2 ** -20, -1 + 2 ** -18, 1 + 2 ** -34, 2 ** -20]
     if t == 'quick':
         specs += gen.l_exhaustive()[::9]
         specs += gen.l_seeded(51, 2500, named=True, offsets=True, satisfy=True, probe=('coef', 'rhs', 'obj', 'off'))
@@ -348,7 +349,7 @@ def family(t, sd):
     else:
         specs += gen.l_exhaustive(level=1)[::7]
         for k in range(4):
-            specs += gen.l_seeded(500 * sd + k, 10000, named=True, offsets=True, satisfy=True)
+            specs += gen.l_seeded(500 * sd + k, 10000, named=True, offsets=True, satisfy=True, probe=('coef', 'rhs', 'obj', 'off'))
             specs += gen.l_seeded(600 * sd + k, 5000, named=True, offsets=True, coefs=[0, 1, -1, 2.5] + big, rhss=[0, 1, -1] + big)
     # odd domains: negative / infinite bounds, empty ranges, duplicate and '$'-style names
     D = gen.D
